@@ -161,7 +161,7 @@ def run(rep):
     del seqs
     # ---- A3. literal / statement families: long numeric literals, braced escapes, statement head x operand, misplaced jumps --
     fres = tlc_job("fam")
-    rep.add_tlc("C04.FamCases (long literals, code point escapes, statement heads x operands, jumps x places) + FamLaw", fres)
+    rep.add_tlc("C04.FamCases (long literals, code point escapes, statement heads x operands, jumps x places, line terminators x contexts) + FamLaw", fres)
     fams = {}
     for r in fres.records:
         if r.get("kind") in ("long", "esc", "stmt", "lt"):
